@@ -16,6 +16,7 @@
     162-185  main loop, ray / success / limit   `lemkeLoop` (fuel = max_iter - 1), `complement`, `setBasis`
     187, 261-291  read-out                      `getSolution`
     148/150  ZeroDivisionError (Numba python error model, `d[i] == 0`)   `divByZero`, `lcpLemkeE`
+    162      signed `max_iter` (zero / negative limits)            `lcpLemkeI`
   parameters: `tolPiv`, `tolDiff` (= piv_options.tol_piv / tol_ratio_diff), `maxIter`.
   not part of the algorithm: `lemkeTies`/`firstTies`/`lcpTies`, `nearScan`/`lemkeNear`/`firstNear`/`lcpNear` (degeneracy and near-tie counters used by the
   harness), `firstStepBuggy`/`firstPivotRowBuggy`/`lemkeRunBuggy` (the pre-repair first ratio
@@ -178,6 +179,13 @@ def lcpLemkeBuf (n : Nat) (Mm : Nat → Nat → α) (q d : Nat → α) (maxIter 
     let o := lemkeLoop n tolPiv tolDiff (maxIter - 1) (pivot T0 (2 * n) r) (setBasis b0 r (2 * n)) (r + n) 1
     ⟨getSolutionBuf n o.T o.basis zbuf, o.status == 0, o.status, o.numIter, some o.basis⟩
 
+/-- `max_iter` as the signed integer the caller may pass: `while num_iter < max_iter` with
+    `num_iter = 1` after the unconditional first pivot, so every `max_iter ≤ 1` (zero and negative
+    values included) stops right after the first pivot. -/
+def lcpLemkeI (n : Nat) (Mm : Nat → Nat → α) (q d : Nat → α) (maxIter : Int) (tolPiv tolDiff : α) :
+    LCPResult α :=
+  lcpLemke n Mm q d maxIter.toNat tolPiv tolDiff
+
 /-- Numba's default error model: `q[i] / d[i]` (lcp_lemke.py 148, 150) raises
     `ZeroDivisionError` when `d[i] == 0`; the loop evaluates it for every `i < n`, after the
     trivial-exit test. No other division of the run can have a zero divisor (pivot elements are
@@ -324,6 +332,16 @@ def handle (toks : List String) : String :=
         match lcpLemkeE n (fnOfMat Mm) (fnOfList q) (fnOfList d) mi tp td with
         | none => "ERR:ZeroDivisionError"
         | some res => showResult showFloatBits n res
+      else "bad-op"
+    | _, _, _, _, _, _, _ => "bad-op"
+  | "lemkefi" :: r =>
+    -- IEEE doubles, signed `max_iter` (zero / negative limits)
+    match kvNat r "n", kvFloatMat r "M", kvFloats r "q", kvFloats r "d", kvInt r "maxiter",
+          (kv r "tolpiv").bind parseFloat?, (kv r "toldiff").bind parseFloat? with
+    | some n, some Mm, some q, some d, some mi, some tp, some td =>
+      if wellShaped n Mm q d then
+        if divByZero n (fnOfList q) (fnOfList d) then "ERR:ZeroDivisionError"
+        else showResult showFloatBits n (lcpLemkeI n (fnOfMat Mm) (fnOfList q) (fnOfList d) mi tp td)
       else "bad-op"
     | _, _, _, _, _, _, _ => "bad-op"
   | "lemkefb" :: r =>
